@@ -267,3 +267,27 @@ Definition apply_unique_plain {A} (cmp:A -> A -> comparison) (data:list A) (ri r
   spec_unique cmp data ri rv rc.
 Definition apply_isin_plain {A} (cmp:A -> A -> comparison) (data:list A) (tests:list (option A)) :=
   spec_isin cmp data tests.
+
+(* ---- FieldDataOps._exact_integer_tests (repair of F-C14c) ------------------------------ *)
+(* Integer columns (numeric int*/uint*, categorical): when every test value is None or an integer,
+   the None entries are dropped, the integers that the column's dtype [lo, hi] cannot hold are
+   dropped, and the rest is handed to np.isin as an array of the column's own dtype (so numpy
+   never types the test values as float64 / object and never merges int64 with uint64).
+   np.isin on two arrays of ONE integer dtype is defined as membership, as above. *)
+Definition in_dtype (lo hi x:Z) : bool := (lo <=? x) && (x <=? hi).
+Definition exact_integer_tests (lo hi:Z) (tests:list (option Z)) : list (option Z) :=
+  map Some (filter (in_dtype lo hi) (somes tests)).
+Definition apply_isin_int (lo hi:Z) (data:list Z) (tests:list (option Z)) : list bool :=
+  apply_isin_plain Z.compare data (exact_integer_tests lo hi tests).
+
+(* what an implicit dtype coercion `c` of column and test values would compute (int64 -> float64
+   because a None entry became NaN, int64 <-> uint64 reinterpretation, narrowing ...) *)
+Definition isin_coerced (c:Z -> Z) (data:list Z) (tests:list (option Z)) : list bool :=
+  spec_isin Z.compare (map c data) (map (option_map c) tests).
+(* binary64 rounding of an integer of magnitude < 2^54 (round half to even; spacing 2 above 2^53) *)
+Definition f64_round (z:Z) : Z :=
+  if Z.abs z <=? 2 ^ 53 then z
+  else let q := z / 2 in
+       if Z.even z then z else if Z.even q then 2 * q else 2 * (q + 1).
+(* two's complement reinterpretation at width w (int64 <-> uint64, narrowing to int32 ...) *)
+Definition wrap_signed (w:Z) (z:Z) : Z := (z + 2 ^ (w - 1)) mod 2 ^ w - 2 ^ (w - 1).
